@@ -150,14 +150,52 @@ def r03b(model: Model, rr: RuleResult):
     c2 = [c for c in calls_in(t) if norm(c.func) == "Component"]
     tcfg = cfg_of(t)
     draws = [c for c in calls_in(t) if callee_tail(c) in ("draw", "drawPoints")]
-    if len(c2) == 1 and norm(kwarg(c2[0], "baseGlyph")) == "paint.glyph" and norm(kwarg(c2[0], "transformation")) == "transform" and (
-            guard_facts(tcfg, tcfg.node_for(c2[0])) or draws):
+    # the component's base glyph is the PaintGlyph's own glyph: read through the call, whichever side takes `.glyph`
+    base_ok = trans_ok = False
+    if len(c2) == 1:
+        bg, tr = kwarg(c2[0], "baseGlyph"), kwarg(c2[0], "transformation")
+        if isinstance(bg, ast.Attribute) and bg.attr == "glyph" and isinstance(bg.value, ast.Name) and bg.value.id in t.params:
+            base_ok = True
+        elif isinstance(bg, ast.Name) and bg.id in t.params:
+            args = model.arguments_for(t, bg.id)
+            base_ok = bool(args) and all(isinstance(e, ast.Attribute) and e.attr == "glyph" for _, _, e in args)
+        trans_ok = isinstance(tr, ast.Name) and tr.id in t.params and tr.id == t.params[-1]
+        if not trans_ok and isinstance(tr, ast.Call) and callee_tail(tr) in ("Transform", "Affine2D"):
+            # the six numbers re-assembled one by one: positive evidence either way (fontTools Transform(xx, xy, yx, yy, dx, dy) = Affine2D(a, b, c, d, e, f))
+            from ..dataflow import resolved as _res, fold_tuples as _ft
+            order = ["xx", "xy", "yx", "yy", "dx", "dy"] if callee_tail(tr) == "Transform" else ["a", "b", "c", "d", "e", "f"]
+            got = {}
+            for i, a_ in enumerate(tr.args):
+                if isinstance(a_, ast.Starred):
+                    got = None
+                    break
+                got[order[i]] = a_
+            if got is not None:
+                for k_ in tr.keywords:
+                    got[k_.arg] = k_.value
+                idx = {}
+                for f_, e_ in got.items():
+                    r_ = _ft(_res(tcfg, tcfg.node_for(c2[0]), e_))
+                    if isinstance(r_, ast.Subscript) and norm(r_.value) == t.params[-1] and isinstance(r_.slice, ast.Constant):
+                        idx[f_] = r_.slice.value
+                    elif isinstance(r_, ast.Attribute) and norm(r_.value) == t.params[-1] and r_.attr in "abcdef":
+                        idx[f_] = "abcdef".index(r_.attr)
+                if len(idx) == 6 and set(idx) == set(order):
+                    if all(idx[f_] == i for i, f_ in enumerate(order)):
+                        trans_ok = True
+                    else:
+                        rr.bad(t, c2[0], f"the component transformation is re-assembled with its fields permuted ({ {f_: 'abcdef'[i] for f_, i in idx.items()} }): rotated / "
+                               f"skewed layer copies are placed with the transposed matrix", construct="_create_transformed_glyph: Component transformation permuted")
+                        base_ok = None
+    if base_ok is None:
+        pass  # reported above
+    elif base_ok and trans_ok and (guard_facts(tcfg, tcfg.node_for(c2[0])) or draws):
         rr.bad(t, c2[0], "a transformed copy is only sometimes a component of the shared outline; otherwise the outline is drawn again into a new glyph: "
                "congruent (e.g. mirrored) copies are stored separately", construct="_create_transformed_glyph: component is conditional / outline re-drawn")
-    elif len(c2) == 1 and norm(kwarg(c2[0], "baseGlyph")) == "paint.glyph" and norm(kwarg(c2[0], "transformation")) == "transform":
+    elif base_ok and trans_ok:
         rr.ok("_create_transformed_glyph: Component(baseGlyph=paint.glyph, transformation=transform), unconditionally")
     else:
-        rr.bad(t, t.node, "_create_transformed_glyph does not wrap the paint's glyph in the given transform", construct="_create_transformed_glyph: Component")
+        rr.bad_shape(t, t.node, "_create_transformed_glyph does not wrap the paint's glyph in the given transform", construct="_create_transformed_glyph: Component")
     if any("glyphOrder +=" in norm(st) or "glyphOrder = " in norm(st) for st in t.body):
         rr.ok("_create_transformed_glyph appends the new glyph to the glyph order")
     else:
@@ -194,11 +232,32 @@ def r03d(model: Model, rr: RuleResult):
     else:
         rr.bad(fi, de[0], "extents are not drawn for every glyph with its own bounds", construct=short(de[0]))
     d = model.func("write_font", "_draw_glyph_extents")
-    t = " ".join(norm(st) for st in d.body)
-    if "start, end = (bounds[:2], bounds[2:])" in t and "pen.moveTo(start)" in t and "pen.lineTo(end)" in t:
-        rr.ok("_draw_glyph_extents draws (xMin,yMin)-(xMax,yMax)")
+    from ..dataflow import resolved, fold_tuples
+    dcfg = cfg_of(d)
+    bp = d.params[2] if len(d.params) > 2 else "bounds"
+
+    def corner(e):
+        """which components of the bounds 4-tuple an expression denotes: bounds[:2] / (bounds[0], bounds[1]) -> (0, 1)"""
+        if isinstance(e, ast.Subscript) and norm(e.value) == bp and isinstance(e.slice, ast.Slice) and e.slice.step is None:
+            lo = e.slice.lower.value if isinstance(e.slice.lower, ast.Constant) else (0 if e.slice.lower is None else None)
+            hi = e.slice.upper.value if isinstance(e.slice.upper, ast.Constant) else (4 if e.slice.upper is None else None)
+            return tuple(range(lo, hi)) if lo is not None and hi is not None else None
+        if isinstance(e, ast.Tuple) and all(isinstance(x, ast.Subscript) and norm(x.value) == bp and isinstance(x.slice, ast.Constant) for x in e.elts):
+            return tuple(x.slice.value for x in e.elts)
+        return None
+    mv = [c for c in calls_in(d) if callee_tail(c) == "moveTo" and len(c.args) == 1]
+    ln = [c for c in calls_in(d) if callee_tail(c) == "lineTo" and len(c.args) == 1]
+    if len(mv) == 1 and len(ln) == 1:
+        a = corner(fold_tuples(resolved(dcfg, dcfg.node_for(mv[0]), mv[0].args[0])))
+        b = corner(fold_tuples(resolved(dcfg, dcfg.node_for(ln[0]), ln[0].args[0])))
+        if {a, b} == {(0, 1), (2, 3)}:
+            rr.ok("_draw_glyph_extents draws (xMin,yMin)-(xMax,yMax)")
+        elif a is not None and b is not None:
+            rr.bad(d, d.node, "_draw_glyph_extents does not span the two corners of the bounds", construct="_draw_glyph_extents body")
+        else:
+            rr.bad_shape(d, d.node, "_draw_glyph_extents does not span the two corners of the bounds", construct="_draw_glyph_extents body")
     else:
-        rr.bad(d, d.node, "_draw_glyph_extents does not span the two corners of the bounds", construct="_draw_glyph_extents body")
+        rr.bad_shape(d, d.node, "_draw_glyph_extents does not span the two corners of the bounds", construct="_draw_glyph_extents body")
 
 
 @RULES.rule("C03", "R03e", "single-component flattening only for unshared components, keeping the codepoint", floor=2)
@@ -262,7 +321,7 @@ def r05a(model: Model, rr: RuleResult):
     else:
         rr.bad_shape(fi, fi.node, "bounds are not accumulated as first-box-then-unionRect over all non-empty glyphs", construct="_bounds: accumulation")
     rets = [st for st in walk_body(fi) if isinstance(st, ast.Return)]
-    none_ret = [st for st in rets if st.value is None]
+    none_ret = [st for st in rets if st.value is None or (isinstance(st.value, ast.Constant) and st.value.value is None)]
     if none_ret and ("bounds is None", True) in [(norm(e), pol) for e, pol in guard_facts(cfg, cfg.node_for(none_ret[0]))]:
         rr.ok("a glyph that paints nothing has no clip box (returns None)")
     else:
